@@ -206,6 +206,7 @@ func c03References(r *engine.Run) bool {
 		// three references: fixed first, the varied one, a non-matching one -> renumbering is observable
 		c := c03RefCase{Op: "refslice", L: L, Infos: []string{fmt.Sprintf("(bases 1 to %d)", L), info, "(sites)", all[(idx*7+3)%n]}, S: w.s, E: w.e, Mol: "DNA"}
 		r.Evals.Add(1)
+		r.Journal(c)
 		r.Transitions.Add(1)
 		ok, sig, detail := c03RefEval(c)
 		r.Distinct.Add(mustJSON(c))
@@ -220,6 +221,7 @@ func c03References(r *engine.Run) bool {
 	for _, w := range wins {
 		c := c03RefCase{Op: "refslice", L: L, Infos: []string{"(residues 1 to 3)", "(bases 1 to 3)"}, S: w.s, E: w.e, Mol: "AA"}
 		r.Evals.Add(1)
+		r.Journal(c)
 		ok, sig, detail := c03RefEval(c)
 		if !ok {
 			r.Fail(engine.Failure{Sig: sig, Case: c, Detail: detail, Size: 2000})
